@@ -6,6 +6,7 @@ from ..rateprobe import exc_detail
 from ..util import KIND, EPS
 
 PROPERTY = "C10"
+PYTEST_PREFIX = "C10/"
 LEVEL = "exploration"
 RULE = ("Contract + shadow executions on the real predict_draw: value in [0,1] (4 ulp); invariant under a random "
         "permutation of teams and of players within teams (1e-12); two teams: moving one member's mu outward in 6 "
